@@ -253,4 +253,155 @@ theorem srcBaseRateTotals_calc (o : Calc.Ops) (enc : List (String × String) →
       simp only [List.foldl_cons, List.map_cons]
       rw [ih2, srcStep_calc o enc henc]
 
+/-! ## the regenerated `calculateBaseRateTotals` (B24): the returned pointer and its index path -/
+
+/-- index of the first row that `matches` (the length when there is none: where `append` puts the new row) -/
+def rateIdx [NumOps] (c : TaxTotals.Combo) : List RateTotal → Nat
+  | [] => 0
+  | rt :: rts => if TaxTotalsSrc.RateTotal_matches rt c = true then 0 else rateIdx c rts + 1
+
+/-- index path of the row `rateTotalFor` returns: first category with the code (or the length), first matching row in it -/
+def catIdx [NumOps] (c : TaxTotals.Combo) : List CategoryTotal → Nat × Nat
+  | [] => (0, 0)
+  | ct :: cts => if ct.code = c.category then (0, rateIdx c ct.rates) else ((catIdx c cts).1 + 1, (catIdx c cts).2)
+
+theorem rateIdx_none [NumOps] (c : TaxTotals.Combo) (l : List RateTotal)
+    (h : ∀ x ∈ l, ¬ (TaxTotalsSrc.RateTotal_matches x c = true)) : rateIdx c l = l.length := by
+  induction l with
+  | nil => rfl
+  | cons a l ih =>
+    have ha := h a (by simp)
+    simp [rateIdx, ha, ih (fun x hx => h x (by simp [hx]))]
+
+theorem rateIdx_found [NumOps] (c : TaxTotals.Combo) (pre post : List RateTotal) (m : RateTotal)
+    (h : ∀ x ∈ pre, ¬ (TaxTotalsSrc.RateTotal_matches x c = true)) (hm : TaxTotalsSrc.RateTotal_matches m c = true) :
+    rateIdx c (pre ++ m :: post) = pre.length := by
+  induction pre with
+  | nil => simp [rateIdx, hm]
+  | cons a l ih =>
+    have ha := h a (by simp)
+    simp [rateIdx, ha, ih (fun x hx => h x (by simp [hx]))]
+
+theorem catIdx_none [NumOps] (c : TaxTotals.Combo) (l : List CategoryTotal)
+    (h : ∀ x ∈ l, ¬ (x.code = c.category)) : catIdx c l = (l.length, 0) := by
+  induction l with
+  | nil => rfl
+  | cons a l ih =>
+    have ha := h a (by simp)
+    simp [catIdx, ha, ih (fun x hx => h x (by simp [hx]))]
+
+theorem catIdx_found [NumOps] (c : TaxTotals.Combo) (pre post : List CategoryTotal) (m : CategoryTotal)
+    (h : ∀ x ∈ pre, ¬ (x.code = c.category)) (hm : m.code = c.category) :
+    catIdx c (pre ++ m :: post) = (pre.length, rateIdx c m.rates) := by
+  induction pre with
+  | nil => simp [catIdx, hm]
+  | cons a l ih =>
+    have ha := h a (by simp)
+    simp [catIdx, ha, ih (fun x hx => h x (by simp [hx]))]
+
+/-- **the `_at` twin of the regenerated `rateTotalFor`** returns the index path `catIdx` -/
+theorem rateTotalFor_at_eq [NumOps] (t : Total) (c : TaxTotals.Combo) (zero : Amount) :
+    TaxTotalsSrc.Total_rateTotalFor_at t c zero = (some (catIdx c t.categories).1, some (catIdx c t.categories).2) := by
+  unfold TaxTotalsSrc.Total_rateTotalFor_at
+  simp only [forIn_list_id, pure_bind]
+  simp only [Id.run, id_pure, newRateTotal_eq, newCategoryTotal_eq, Option.get!_some]
+  rcases forList_search (fun (m : CategoryTotal) => m.code = c.category) t.categories 0 with
+    ⟨hno, hs⟩ | ⟨pre, m, post, hl, hpre, hm, hs⟩
+  · simp only [hs, Option.isNone_none, if_true, List.zipIdx_nil, forList]
+    rw [catIdx_none _ _ hno]
+    simp
+  · simp only [hs, Option.isNone_some, Bool.false_eq_true, if_false, Option.get!_some, Nat.zero_add]
+    rw [hl, catIdx_found _ _ _ _ hpre hm]
+    rcases forList_search (fun (r : RateTotal) => TaxTotalsSrc.RateTotal_matches r c = true) m.rates 0 with
+      ⟨rno, rs⟩ | ⟨rpre, rm, rpost, rl, rpreh, rmh, rs⟩
+    · simp only [rs, Option.isNone_none, if_true]
+      rw [rateIdx_none _ _ rno]
+    · simp only [rs, Option.isNone_some, Bool.false_eq_true, if_false]
+      rw [rl, rateIdx_found _ _ _ _ rpreh rmh]
+      simp
+
+/-- write `v` at the index path `(i, j)`: what the translation emits after a write through the returned pointer -/
+def setAt (i j : Nat) (v : RateTotal) (cats : List CategoryTotal) : List CategoryTotal :=
+  cats.set i { (cats[i]!) with rates := (cats[i]!).rates.set j v }
+
+theorem setAt_setAt (i j : Nat) (v w : RateTotal) (cats : List CategoryTotal) :
+    setAt i j w (setAt i j v cats) = setAt i j w cats := by
+  unfold setAt
+  by_cases h : i < cats.length
+  · simp [h, List.set_set]
+  · have h' : cats.length ≤ i := Nat.le_of_not_lt h
+    simp [List.set_eq_of_length_le h']
+
+theorem setAt_cons_succ (i j : Nat) (v : RateTotal) (a : CategoryTotal) (cats : List CategoryTotal) :
+    setAt (i + 1) j v (a :: cats) = a :: setAt i j v cats := by
+  simp [setAt]
+
+section
+variable (o : Calc.Ops) (enc : List (String × String) → String) (henc : ∀ a b, enc a = enc b → a = b)
+include henc
+
+theorem setRate_locRates (c : TaxTotals.Combo) (zero : Amount) (f : RateTotal → RateTotal) (rs : List RateTotal) :
+    (@locRates (calcOps o) c zero rs).1.set (@rateIdx (calcOps o) c rs) (f (@locRates (calcOps o) c zero rs).2) =
+      @updRates (calcOps o) c f (@locRates (calcOps o) c zero rs).1 := by
+  induction rs with
+  | nil => simp [locRates, rateIdx, updRates, newRT_matches o enc henc]
+  | cons a l ih =>
+    by_cases h : @TaxTotalsSrc.RateTotal_matches (calcOps o) a c = true
+    · simp [locRates, rateIdx, updRates, h]
+    · simp [locRates, rateIdx, updRates, h, ih]
+
+theorem setAt_locCats (c : TaxTotals.Combo) (zero : Amount) (f : RateTotal → RateTotal) (cats : List CategoryTotal) :
+    setAt (@catIdx (calcOps o) c cats).1 (@catIdx (calcOps o) c cats).2 (f (@locCats (calcOps o) c zero cats).2)
+        (@locCats (calcOps o) c zero cats).1 =
+      @updCats (calcOps o) c f (@locCats (calcOps o) c zero cats).1 := by
+  induction cats with
+  | nil => simp [locCats, catIdx, updCats, updRates, setAt, newRT_matches o enc henc]
+  | cons a l ih =>
+    by_cases h : a.code = c.category
+    · have := setRate_locRates o enc henc c zero f a.rates
+      simp [locCats, catIdx, updCats, setAt, h, this]
+    · simp only [locCats, catIdx, updCats, h, if_false, setAt_cons_succ, ih]
+
+/-- **one round of the regenerated inner loop of `calculateBaseRateTotals`** — `rateTotalFor`, its index
+    path, the two writes through the returned pointer with their write-backs — **is `srcStep`** -/
+theorem baseStep_eq (r : String) (c0 : Nat) (t : Total) (cb : TaxTotals.Combo) (tot : Amount) :
+    ({ (@TaxTotalsSrc.Total_rateTotalFor (calcOps o) t cb ⟨0, c0⟩).2 with
+        categories := setAt (@catIdx (calcOps o) cb t.categories).1 (@catIdx (calcOps o) cb t.categories).2
+          (accBase o (ruleOf r) tot (@locCats (calcOps o) cb ⟨0, c0⟩ t.categories).2)
+          (@TaxTotalsSrc.Total_rateTotalFor (calcOps o) t cb ⟨0, c0⟩).2.categories } : Total) =
+      srcStep o (ruleOf r) c0 t cb tot := by
+  unfold srcStep
+  rw [@rateTotalFor_eq (calcOps o)]
+  simp only [setAt_locCats o enc henc]
+
+end
+
+/-- the rows `calculateBaseRateTotals` walks over, as (total, combos) -/
+def lineRows (ls : List TaxTotals.TaxLine) : List (Amount × List TaxTotals.Combo) := ls.map (fun tl => (tl.total, tl.taxes))
+
+/-- **the regenerated `(*TotalCalculator).calculateBaseRateTotals` is `srcBaseRateTotals`**: both loops, the
+    call of `rateTotalFor`, and the two statements written through the pointer it returns -/
+theorem calculateBaseRateTotals_eq (o : Calc.Ops) (enc : List (String × String) → String)
+    (henc : ∀ a b, enc a = enc b → a = b) (tc : TaxTotals.Calculator) (c0 : Nat) (hz : tc.zero = ⟨0, c0⟩)
+    (ls : List TaxTotals.TaxLine) (t : Total) :
+    (@TaxTotalsSrc.TotalCalculator_calculateBaseRateTotals (calcOps o) tc ls t).2 =
+      srcBaseRateTotals o (ruleOf tc.rounding) c0 (lineRows ls) t := by
+  unfold TaxTotalsSrc.TotalCalculator_calculateBaseRateTotals srcBaseRateTotals lineRows
+  simp only [forIn_list_id, pure_bind, hz, @rateTotalFor_at_eq (calcOps o)]
+  simp only [Id.run, id_pure]
+  rw [List.foldl_map]
+  apply forList_eq_foldl
+  intro tl s
+  congr 1
+  apply forList_eq_foldl
+  intro cb s'
+  congr 1
+  rw [← baseStep_eq o enc henc tc.rounding c0 s' cb tl.total]
+  rw [@rateTotalFor_eq (calcOps o)]
+  generalize @locCats (calcOps o) cb ⟨0, c0⟩ s'.categories = LC
+  generalize @catIdx (calcOps o) cb s'.categories = ij
+  by_cases h : ij.1 < LC.1.length
+  · simp [setAt, accBase, mrp_calc, c_add, h, List.set_set]
+  · simp [setAt, accBase, mrp_calc, c_add, List.set_eq_of_length_le (Nat.le_of_not_lt h)]
+
 end GoblVerif.Proofs.TaxTotalsSrc
